@@ -6,8 +6,10 @@ use crate::scenario::{Scenario, Stats, Tier, Violation};
 use crate::world::{self, CutCfg, World};
 
 pub mod c10;
+pub mod c15;
+pub mod c18;
 
-pub const CLAIMED: [&str; 1] = ["C10"];
+pub const CLAIMED: [&str; 3] = ["C10", "C15", "C18"];
 
 /// Draw a program and cut it into a world. Returns (world, generator cfg, cut cfg, lines).
 pub fn draw_world(r: &mut Rng, force: impl FnOnce(&mut GenCfg, &mut CutCfg)) -> (World, GenCfg, CutCfg, Vec<String>) {
@@ -23,6 +25,8 @@ pub fn generate(prop: &str, seed: u64, tier: Tier) -> Scenario {
     let mut r = Rng::new(seed);
     match prop {
         "C10" => c10::generate(&mut r, tier),
+        "C18" => c18::generate(&mut r, tier),
+        "C15" => c15::generate(&mut r, tier),
         _ => panic!("unknown property {prop}"),
     }
 }
@@ -30,6 +34,8 @@ pub fn generate(prop: &str, seed: u64, tier: Tier) -> Scenario {
 pub fn check(scn: &Scenario, stats: &mut Stats) -> Vec<Violation> {
     match scn.property.as_str() {
         "C10" => c10::check(scn, stats),
+        "C18" => c18::check(scn, stats),
+        "C15" => c15::check(scn, stats),
         p => panic!("unknown property {p}"),
     }
 }
@@ -60,6 +66,8 @@ pub fn kind_of_title(title: &str) -> String {
 pub fn rule(prop: &str) -> &'static str {
     match prop {
         "C10" => "cases = worlds (generated program cut into an include tree) x entropy seeds (hash/UUID schedules); a world is non-trivial iff it produced at least one diagnostic and at least one reach probe fired on it (exit choice / functions() order / pre-sort order differed across its schedules, or it has a multi-label function, or it is multi-file); distinct = by content hash of the world",
+        "C18" => "cases = worlds x the 16 combinations of --json/--compact/--no-color/--all-files under one shared entropy seed, plus the library call RVParser::run; a world is non-trivial iff it produced at least one diagnostic (so there is something to compare across channels); distinct = by content hash of the world",
+        "C15" => "cases = worlds (program cut into an include tree, plus missing-file / self-include / two-cycle / included-twice shapes) x reader personality x reader fault plan (kind x import index) in process, and x file-system fault plan through the real CLI; each compared with the same analyzer on the pasted single file; a world is non-trivial iff at least one include directive was met and at least one diagnostic was produced; distinct = by content hash of the world",
         _ => "",
     }
 }
